@@ -31,12 +31,15 @@ Definition truthy_safe (k : pkind) : bool :=
 
 Definition is_time_kind (k : pkind) : bool := match k with KTime _ _ => true | _ => false end.
 
+Definition time_slot (c : cls) (p : ustring) : bool :=
+  match find_slot c p with Some s => is_time_kind (skind s) | None => false end.
+
 (* the conditions the constraint methods evaluate: what the proof needs of the properties read *)
 Fixpoint cond_ok (c : cls) (q : ccond) : bool :=
   match q with
   | QTruthy p => match find_slot c p with Some s => truthy_safe (skind s) | None => false end
   | QIsTrue _ | QIsNotFalse _ | QIsNotNone _ | QHas _ => true
-  | QLt _ _ | QLe _ _ => false      (* timestamps compared as instants: not covered yet *)
+  | QLt a b | QLe a b => time_slot c a && time_slot c b   (* compared as instants *)
   | QAnd a b | QOr a b => cond_ok c a && cond_ok c b
   | QNot a => cond_ok c a
   end.
